@@ -1,5 +1,5 @@
 use rusty_common::{AtPos, Position, Positioned};
-use rusty_parser::{Assignment, Expression, ExpressionPos, Statement};
+use rusty_parser::{Assignment, Expression, ExpressionPos, ExpressionTrait, Statement};
 
 use crate::converter::common::{ConvertibleIn, ExprContext};
 use crate::core::{LintErrorPos, LinterContext};
@@ -16,7 +16,7 @@ pub fn on_assignment(
         element: converted_left,
         ..
     } = left.at_pos(pos).convert_in(ctx, ExprContext::Assignment)?;
-    assignment_post_conversion_validation_rules::validate(&converted_left, &converted_right)?;
+    assignment_post_conversion_validation_rules::validate(&converted_left, &converted_right, pos)?;
     Ok(Statement::assignment(converted_left, converted_right))
 }
 
@@ -61,8 +61,12 @@ mod assignment_post_conversion_validation_rules {
     pub fn validate(
         left_side: &Expression,
         right_side: &ExpressionPos,
+        pos: Position,
     ) -> Result<(), LintErrorPos> {
-        if right_side.can_cast_to(left_side) {
+        if !left_side.is_by_ref() {
+            // e.g. A(1) = 2 without A being an array (or a function inside its own body)
+            Err(LintError::ArrayNotDefined.at_pos(pos))
+        } else if right_side.can_cast_to(left_side) {
             Ok(())
         } else {
             Err(LintError::TypeMismatch.at(right_side))
